@@ -30,6 +30,7 @@ func runC17(c *Ctx) {
 	c.rule("blank-delegation", "(shared with C20) the ez entry points install the watched file through Blank.SetSource: the inner Watch gets the Dials watch context saved by Blank.Watch (not the SetSource caller's), the saved type and arguments", 5)
 	c.rule("blank-locking", "(shared with C20) Blank's fields are accessed under its mutex", 8)
 	c.rule("exit-on-fresh-scan", "(shared with C05/C08) the monitor keeps stacking the file source's reports until a complete scan of the watching bits finds no watcher: another source calling Done never stops a still-watching file source from being heard", 1)
+	c.rule("refusal-reported", "the watch loop hands a non-nil result of ReportNewValue (a value a wrapping WatchArgs refused) to ReportError", 1)
 	c.rule("initial-check", "the watch loop looks at the file once when it starts, without waiting for an event (a change between the initial read and the setup of the watches raises none)", 1)
 	c.rule("release", "the loop goroutine defers watcher.Close, WG.Done and signal.Stop at entry, returns on <-ctx.Done(), and WG.Add(1) precedes `go`", 4)
 
@@ -122,6 +123,36 @@ func runC17(c *Ctx) {
 		}
 		c.check(okInit, "initial-check", name, sel.Pos(), "the loop looks at the file once when it starts ("+how+")",
 			"the watch loop waits for an event before its first look at the file: a change made between the initial read (dials.Config / Blank.SetSource read the value first and start the watcher later) and the setup of the watches raises no event, so if it was the last change the view never converges to the file's final content")
+	}
+
+	// ---- refusal-reported: ReportNewValue may fail (a wrapping WatchArgs that cannot reverse-translate the value returns
+	// the error to the watcher); the content is then invalid and the error must reach ReportError (D38)
+	{
+		nrep := 0
+		for _, i := range allInstrs(loop) {
+			ci, ok := i.(*ssa.Call)
+			if !ok || calleeFullName(ci) != "("+modPath+".WatchArgs).ReportNewValue" {
+				continue
+			}
+			nrep++
+			okRep := false
+			for _, j := range allInstrs(loop) {
+				re, ok := j.(*ssa.Call)
+				if !ok || calleeFullName(re) != "("+modPath+".WatchArgs).ReportError" {
+					continue
+				}
+				if !derivesAny(re.Call.Args[len(re.Call.Args)-1], func(v ssa.Value) bool { return v == ssa.Value(ci) }, nil) {
+					continue
+				}
+				if knownNil(re.Block(), ci, false) {
+					okRep = true
+				}
+			}
+			c.check(okRep, "refusal-reported", name, ci.Pos(), "a value the WatchArgs refused (non-nil result of ReportNewValue) is handed to ReportError", "the result of ReportNewValue is dropped: when a wrapping WatchArgs refuses the value (the transforming source returns the reverse-translation error there) the view stays at the last good config but the error is never reported")
+		}
+		if nrep == 0 {
+			c.bad("refusal-reported", name, loop.Pos(), "the watch loop never reports a new value")
+		}
 	}
 
 	// ---- checksum-after-decode --------------------------------------------------------
